@@ -4,6 +4,7 @@ package main
 
 import (
 	"fmt"
+	"strconv"
 	"strings"
 
 	"golang.org/x/tools/go/ssa"
@@ -171,6 +172,8 @@ func checkC12(c *Check) {
 			c.require(p.Name(fn) == "peer.updateStartupDelay", "C12.4 backoff", p.Name(fn), "amnesia test", p.InstrPos(cl.(ssa.Instruction)), "the amnesia clock is consulted only when a damping error occurs")
 		}
 	}
+	c.notificationReachesManager("C12.3 notification-reaches-manager")
+	c.readerHandoffRule("C12.3 received-notification-not-overtaken")
 	c.backoffArithmetic("C12.4 backoff")
 	c.holdDownSemantics("C12.5 hold-down")
 	c.inboundAdmission("C12.5 hold-down")
@@ -261,4 +264,170 @@ func (c *Check) backoffArithmetic(rule string) {
 			c.require(ok, rule, "peer.updateStartupDelay", "timer duration", p.InstrPos(cl.(ssa.Instruction)), "the damping timer runs for the newly computed startupDelay")
 		}
 	}
+}
+
+// fmtVerbs returns the verbs of a format string in argument order.
+func fmtVerbs(f string) []byte {
+	var out []byte
+	for i := 0; i < len(f); i++ {
+		if f[i] != '%' {
+			continue
+		}
+		i++
+		for i < len(f) && strings.IndexByte("+-# 0123456789.*[]", f[i]) >= 0 {
+			i++
+		}
+		if i < len(f) && f[i] != '%' {
+			out = append(out, f[i])
+		}
+	}
+	return out
+}
+
+// wrappedOperands returns the operands of a fmt.Errorf term that are wrapped
+// with %w (the only verb errors.As can see through).
+func wrappedOperands(e *Expr) []*Expr {
+	if e == nil || e.Op != "call" || e.S != "fmt.Errorf" || len(e.Args) < 3 || e.Args[1].Op != "str" {
+		return nil
+	}
+	f := e.Args[1].S
+	if uq, err := strconv.Unquote(f); err == nil {
+		f = uq
+	}
+	verbs := fmtVerbs(f)
+	var out []*Expr
+	for i, a := range e.Args[2:] {
+		if i < len(verbs) && verbs[i] == 'w' {
+			out = append(out, a)
+		}
+	}
+	return out
+}
+
+// notificationReachesManager: the peer manager damps on what the state
+// functions return (handleError looks for a *notificationError with
+// errors.As). So whenever a state function passes a notification to
+// sendNotification, the error it returns must carry that very notification as
+// a *notificationError with out=true (directly or behind %w), and whenever it
+// hands an error to handleNotificationInErr (which sends the notification the
+// error carries) it must return that error, or the *notificationError found
+// in it, wrapped with %w. Otherwise a protocol error is sent to the peer but
+// never damps it.
+func (c *Check) notificationReachesManager(rule string) {
+	p := c.P
+	n := 0
+	for _, top := range p.FuncSeq {
+		for _, fn := range withAnon(top) {
+			res := fn.Signature.Results()
+			if res.Len() == 0 || res.At(res.Len()-1).Type().String() != "error" {
+				continue
+			}
+			if len(p.callsIn(fn, descIs("fsm.sendNotification")))+len(p.callsIn(fn, descIs("fsm.handleNotificationInErr"))) == 0 {
+				continue
+			}
+			if p.Name(fn) == "fsm.sendNotification" {
+				continue
+			}
+			fnName := p.Name(fn)
+			a := NewAnalysis(p, fn)
+			a.EventArgs = func(st *State, desc string, args []*Expr) string {
+				switch desc {
+				case "fsm.sendNotification", "fsm.handleNotificationInErr":
+					if len(args) == 2 {
+						return args[1].Key
+					}
+				case "errors.As":
+					if len(args) == 2 {
+						t := args[1]
+						if t.Op == "makeiface" {
+							t = t.Args[0]
+						}
+						return args[0].Key + " => " + t.Key
+					}
+				}
+				return ""
+			}
+			a.Run()
+			for _, u := range a.Undecided {
+				c.undecided(rule, fnName, "analysis", p.Pos(fn.Pos()), u)
+			}
+			for _, r := range a.Returns {
+				st := r.State
+				var sent, handled []string
+				asTargets := map[string]string{} // target alloc key -> source error key
+				for ev := range st.may {
+					switch {
+					case strings.HasPrefix(ev, "call:fsm.sendNotification("):
+						sent = append(sent, strings.TrimSuffix(strings.TrimPrefix(ev, "call:fsm.sendNotification("), ")"))
+					case strings.HasPrefix(ev, "call:fsm.handleNotificationInErr("):
+						handled = append(handled, strings.TrimSuffix(strings.TrimPrefix(ev, "call:fsm.handleNotificationInErr("), ")"))
+					case strings.HasPrefix(ev, "call:errors.As("):
+						parts := strings.SplitN(strings.TrimSuffix(strings.TrimPrefix(ev, "call:errors.As("), ")"), " => ", 2)
+						if len(parts) == 2 {
+							asTargets[parts[1]] = parts[0]
+						}
+					}
+				}
+				if len(sent)+len(handled) == 0 {
+					continue
+				}
+				e := r.Results[len(r.Results)-1]
+				// carriesSent: e is / wraps a notificationError{notification K, out=true}
+				var carriesSent func(e *Expr, k string, depth int) bool
+				carriesSent = func(e *Expr, k string, depth int) bool {
+					if e == nil || depth > 3 {
+						return false
+					}
+					if e.Op == "makeiface" && e.S == "*notificationError" && e.Args[0].Op == "alloc" {
+						nt := p.loadField(st, e.Args[0], "notificationError", "notification")
+						o := p.loadField(st, e.Args[0], "notificationError", "out")
+						if nt == nil || o == nil || nt.Key != k {
+							return false
+						}
+						ov, isC := st.evalBool(o).IsConst()
+						return isC && ov == 1
+					}
+					for _, in := range wrappedOperands(e) {
+						if carriesSent(in, k, depth+1) {
+							return true
+						}
+					}
+					return false
+				}
+				// carriesHandled: e wraps (with %w) the handled error k or the
+				// *notificationError errors.As extracted from it
+				carriesHandled := func(e *Expr, k string) bool {
+					if e != nil && e.Key == k {
+						return true
+					}
+					for _, in := range wrappedOperands(e) {
+						if in.Key == k {
+							return true
+						}
+						if in.Op == "makeiface" && in.S == "*notificationError" && in.Args[0].Op == "ld" {
+							if src, ok := asTargets[in.Args[0].Args[0].Key]; ok && src == k {
+								return true
+							}
+						}
+					}
+					return false
+				}
+				ok := false
+				for _, k := range sent {
+					if carriesSent(e, k, 0) {
+						ok = true
+					}
+				}
+				for _, k := range handled {
+					if carriesHandled(e, k) {
+						ok = true
+					}
+				}
+				n++
+				c.require(ok, rule, fnName, "return after a notification was sent", p.InstrPos(r.Instr),
+					fmt.Sprintf("the returned error carries the sent notification as *notificationError{out=true} (or the error given to handleNotificationInErr) directly or behind %%w; returned %s", trunc(e.Key, 120)))
+			}
+		}
+	}
+	c.floor(rule, n, 12, "returns that follow a sent notification")
 }
